@@ -90,4 +90,19 @@ theorem the_chunk_pullers :
     fnsOf "" "BufferedIter" = [["new", "next"]] := by
   decide +kernel
 
+/-- the inherent functions of every type (all other behaviour comes through the traits) and the free functions (the three default
+loops): there is no `reset`, `rewind`, `set_position`, … — nothing that could move a counter backwards or re-arm an iterator -/
+theorem the_inherent_api :
+    fnsOf "" "AtomicCounter" = [["new", "fetch_and_add", "fetch_and_increment", "current", "store", "swap"]] ∧
+    fnsOf "" "ConIterOfSlice" = [["new", "as_slice"]] ∧ fnsOf "" "ConIterOfRange" = [["new", "range"]] ∧
+    fnsOf "" "ConIterOfVec" = [["new", "take_one", "take_slice", "split_off_right"]] ∧
+    fnsOf "" "ConIterOfArray" = [["new", "take_one", "take_slice", "split_off_right"]] ∧
+    fnsOf "" "ConIterOfIter" = [["new", "mut_iter", "progress_yielded_counter", "mark_completed", "complete_on_unwind"]] ∧
+    fnsOf "" "CompleteOnUnwind" = [["disarm"]] ∧ fnsOf "" "Taken" = [["new"]] ∧
+    fnsOf "" "Cloned" = [["new", "underlying_iter"]] ∧ fnsOf "" "Copied" = [["new", "underlying_iter"]] ∧
+    sameSet (implsOf "") ["AtomicCounter", "ConIterOfSlice", "ConIterOfRange", "ConIterOfVec", "ConIterOfArray", "ConIterOfIter",
+      "CompleteOnUnwind", "Taken", "Cloned", "Copied", "BufferedIter"] = true ∧
+    (surface.filter (fun r => r.tr == "fn")).map (·.fns) = [["fold"], ["for_each", "for_each_with_ids"]] := by
+  decide +kernel
+
 end Orx.GenThms.Surface
